@@ -128,10 +128,24 @@ Definition chain_max (prog : list instr) (k : nat) : nat :=
   max_list (flat_map (dfs (length prog) (succs_link prog) (weight prog k) 0)
                      (seq 0 (length prog))).
 
+(** The same maximum by dynamic programming over positions: [nth i (dp_from ..)] is the largest
+    count over chains ENDING at position [i] (polynomial; used by the checker). *)
+Fixpoint dp_from (prog : list instr) (k : nat) (todo i : nat) (done : list nat) : list nat :=
+  match todo with
+  | O => done
+  | S t =>
+      let preds := filter (fun a => linkb prog a i) (seq 0 i) in
+      let b := weight prog k i + max_list (map (fun a => nth a done 0) preds) in
+      dp_from prog k t (S i) (done ++ [b])
+  end.
+
+Definition chain_max_dp (prog : list instr) (k : nat) : nat :=
+  max_list (dp_from prog k (length prog) 0 []).
+
 Definition supported (prog : list instr) : bool := forallb (fun x => negb (is_unsupported x)) prog.
 
 Definition chk_depth (prog : list instr) (k d : nat) : bool :=
-  supported prog && Nat.eqb d (chain_max prog k).
+  supported prog && Nat.eqb d (chain_max_dp prog k).
 
 (** first unsupported instruction *)
 Fixpoint first_unsupported (prog : list instr) (i : nat) : option nat :=
